@@ -27,6 +27,7 @@ from liquid2.ast import PartialScope
 from liquid2.builtin import Identifier
 from liquid2.builtin import StringLiteral
 from liquid2.builtin import parse_string_or_identifier
+from liquid2.exceptions import LiquidError
 from liquid2.exceptions import LiquidSyntaxError
 from liquid2.exceptions import RequiredBlockError
 from liquid2.exceptions import StopRender
@@ -212,7 +213,7 @@ class BlockNode(Node):
         if stack_item.required:
             raise RequiredBlockError(
                 f"block {self.name!r} must be overridden",
-                token=self.token,
+                token=stack_item.block.token,
                 template_name=stack_item.source_name,
             )
 
@@ -235,7 +236,13 @@ class BlockNode(Node):
         # Loops around `block.super` run in `ctx`.
         drop.scope = ctx
 
-        return stack_item.block.block.render(ctx, buffer)
+        try:
+            return stack_item.block.block.render(ctx, buffer)
+        except LiquidError as err:
+            # The overriding block's template, not the base template's.
+            if not err.template_name:
+                err.template_name = stack_item.source_name
+            raise
 
     async def render_to_output_async(
         self, context: RenderContext, buffer: TextIO
@@ -270,7 +277,7 @@ class BlockNode(Node):
         if stack_item.required:
             raise RequiredBlockError(
                 f"block {self.name!r} must be overridden",
-                token=self.token,
+                token=stack_item.block.token,
                 template_name=stack_item.source_name,
             )
 
@@ -292,7 +299,12 @@ class BlockNode(Node):
 
         # Loops around `block.super` run in `ctx`.
         drop.scope = ctx
-        return await stack_item.block.block.render_async(ctx, buffer)
+        try:
+            return await stack_item.block.block.render_async(ctx, buffer)
+        except LiquidError as err:
+            if not err.template_name:
+                err.template_name = stack_item.source_name
+            raise
 
     def children(
         self,
@@ -424,7 +436,12 @@ class BlockDrop(Mapping[str, object]):
                     )
                 }
             ):
-                self.parent.block.block.render(self.context, buf)
+                try:
+                    self.parent.block.block.render(self.context, buf)
+                except LiquidError as err:
+                    if not err.template_name:
+                        err.template_name = self.parent.source_name
+                    raise
         finally:
             self.context.loop_iteration_carry = carry
 
@@ -591,6 +608,7 @@ def _stack_blocks(
             raise TemplateInheritanceError(
                 f"duplicate block {block.name}",
                 token=block.token,
+                template_name=template_name,
             )
         seen_block_names.add(block.name)
 
